@@ -184,7 +184,8 @@ fn run_selected(ctx: &Ctx, name: &str, select: fn(&Entry) -> bool, extras: bool)
         let mut rng = ctx.rng(&format!("kat:{}", id));
         let mut no_ref = 0;
         // Kuznyechik's literal reference model is slow (3e4 blocks/s): fewer keys, same classes
-        let nk = if e.family == "kuznyechik" { (nkeys / 8).max(2) } else { nkeys };
+        let light = cfg!(miri) || ctx.light();
+        let nk = if light { 1 + (nkeys > 2) as u64 } else if e.family == "kuznyechik" { (nkeys / 8).max(2) } else { nkeys };
         for i in 0..nk {
             let kc = gen::pick_class(&mut rng, i);
             let key = entry_key(e, &mut rng, kc);
@@ -213,7 +214,7 @@ fn run_selected(ctx: &Ctx, name: &str, select: fn(&Entry) -> bool, extras: bool)
             }
             rep.bump(&id, "keys", 1);
             rep.bump(&id, &format!("keylen:{}", key.len()), 1);
-            for j in 0..3u64 {
+            for j in 0..(if light { 1 } else { 3u64 }) {
                 let bc = gen::pick_class(&mut rng, i + j);
                 let x = gen::gen(&mut rng, bs, bc);
                 note_classes(&mut rep, kc, bc);
@@ -227,7 +228,7 @@ fn run_selected(ctx: &Ctx, name: &str, select: fn(&Entry) -> bool, extras: bool)
             }
             // a batch (exercises the parallel backend with this key) vs the reference
             let w = inst.width(true).max(inst.width(false));
-            let n = 1 + rng.below(2 * w + 2);
+            let n = if light { w + 1 } else { 1 + rng.below(2 * w + 2) };
             let data = gen::gen(&mut rng, n * bs, 0);
             for encrypt in [true, false] {
                 let bshape = BATCH_SHAPES[((i + encrypt as u64) % 6) as usize];
@@ -295,7 +296,7 @@ fn walking_bits(ctx: &Ctx, rep: &mut Report, e: &Entry, id: &str) {
         let zero_block = vec![0u8; bs];
         let mut bit = 0;
         while bit < kl * 8 {
-            for base in [0x00u8, 0xFF] {
+            for base in (if light { vec![0x00u8] } else { vec![0x00u8, 0xFF] }) {
                 let mut key = vec![base; kl];
                 key[bit / 8] ^= 0x80 >> (bit % 8);
                 if let (Some(r), Made::Ok(inst)) = ((e.reference)(&key), (e.make)(&key)) {
@@ -305,6 +306,9 @@ fn walking_bits(ctx: &Ctx, rep: &mut Report, e: &Entry, id: &str) {
             bit += if slow { stride * 3 } else { stride };
         }
         let key: Vec<u8> = (0..kl).map(|i| (i as u8).wrapping_mul(0x1d).wrapping_add(0x33)).collect();
+        if light {
+            continue;
+        }
         if let (Some(r), Made::Ok(inst)) = ((e.reference)(&key), (e.make)(&key)) {
             let mut bit = 0;
             while bit < bs * 8 {
